@@ -877,7 +877,7 @@ func (cfg *config) parseScript(line string) error {
 		splitChar := editcmd[1:2]
 		parts := strings.SplitN(editcmd, splitChar, 4)
 		if len(parts) < 4 || (parts[3] != "" && parts[3] != "g") {
-			errors.WithHint(errors.New("invalid syntax"), "try edit s/.../.../")
+			return errors.WithHint(errors.New("invalid syntax"), "try edit s/.../.../")
 		}
 		orig, repl := parts[1], parts[2]
 		origRe, err := regexp.Compile(orig)
